@@ -97,7 +97,16 @@ def shard(sh: Shard, seed, wseed, cases):
 
             rig.net.fault = fault
             n0 = len(rig.net.log)
+            # the retry budget is whatever the configuration says when the transfer starts
+            from geckolib.config import GeckoConfig
+
+            saved_rc = GeckoConfig.PROTOCOL_RETRY_COUNT
+            if "cfg_retry" in case:
+                GeckoConfig.PROTOCOL_RETRY_COUNT = case["cfg_retry"]
+                sh.count("threaded_transfers_with_reconfigured_retry_count")
+            allowed = GeckoConfig.PROTOCOL_RETRY_COUNT
             req = GeckoStatusBlockProtocolHandler.request(spa.get_and_increment_sequence_counter(False), start, length, parms=spa.sendparms)
+            GeckoConfig.PROTOCOL_RETRY_COUNT = saved_rc
             budget = (req._retry_count + 2) * (req._timeout_in_seconds + 1) + 10
             try:
                 spa.struct.retry_request(spa, req, spa.sendparms)
@@ -115,8 +124,8 @@ def shard(sh: Shard, seed, wseed, cases):
             success = len(installs) >= 1
             if not done:
                 sh.violation("C01:threaded:never-finishes", "the status-block request handler was never removed (transfer neither succeeded nor failed)", wit)
-            if len(statu) > 1 + 10:
-                sh.violation("C01:threaded:too-many-requests", f"{len(statu)} STATU requests on the wire (1 + 10 retries allowed)", wit)
+            if len(statu) > 1 + allowed:
+                sh.violation("C01:threaded:too-many-requests", f"{len(statu)} STATU requests on the wire (1 + {allowed} retries configured when the transfer started)", wit)
             if len(after) != 1024:
                 sh.violation("C01:threaded:block-size", f"client block is {len(after)} bytes after the transfer", wit)
             if success:
@@ -177,6 +186,8 @@ def gen(tier, seed):
         # every attempt loses a segment (its tail / one in the middle): the transfer fails after
         # having collected data, and a fault-free transfer follows on the same structure
         allatt = list(range(1, 40))
+        for n_ in (0, 2, 3):
+            cases.append({"start": st, "length": L, "fault": {"kind": "drop-seg", "idx": 1 if n > 1 else 0, "attempts": allatt}, "cfg_retry": n_, "follow": (st, L)})
         cases.append({"start": st, "length": L, "fault": {"kind": "drop-last", "attempts": allatt}, "follow": (st, L)})
         if n > 2:
             cases.append({"start": st, "length": L, "fault": {"kind": "drop-seg", "idx": n // 2, "attempts": allatt}, "follow": (0, 1024)})
@@ -194,6 +205,7 @@ def add(run, tier, seed):
     jobs = [{"seed": seed, "wseed": i, "cases": cases[i::n]} for i in range(n) if cases[i::n]]
     run.absorb(run_shards("checks.c01_threaded", "shard", jobs, timeout=3000))
     run.need(run.counters.get("threaded_success", 0) > 60 and run.counters.get("threaded_failure", 0) > 2, "threaded structure: too few successful/failed transfers")
+    run.need(run.counters.get("threaded_transfers_with_reconfigured_retry_count", 0) >= 6, "threaded structure: retry count never reconfigured at run time")
     run.need(run.counters.get("threaded_follow_up_transfers", 0) >= 6, "threaded structure: no fault-free transfer right after a failed one")
     fk = run.sets.get("threaded_fault_kinds", set())
     for k in ("none", "drop-seg", "dup-seg", "swap", "drop-req", "dup-req", "dup-req-burst", "drop-last", "blackout", "random"):
